@@ -338,6 +338,53 @@ fn run_config(report: &Report, pre: Pre, ops: &[Op], bound: usize, extra_filter:
     }
 }
 
+/// Runs started through `POST /sessions/{id}/input`: whatever the server answers, the session
+/// stream in the log must read 0..n-1 and the store must replay.
+fn session_inputs(report: &Report) {
+    use std::time::{Duration, Instant};
+    let rt = crate::provx::new_mt_rt();
+    for (label, posts, wait_between) in [("once", 1usize, false), ("twice_back_to_back", 2, false), ("twice_after_the_first_run_ended", 2, true), ("three_times", 3, true)] {
+        for input in ["hello", "{\"tool\": \"ls\", \"args\": {}}"] {
+            let app = crate::provx::App::new(rt.clone(), None);
+            let (st, body) = app.request("POST", "/sessions", None);
+            let sid = serde_json::from_slice::<Value>(&body).ok().and_then(|v| v["session_id"].as_str().map(|s| s.to_string())).unwrap_or_default();
+            if st >= 300 || sid.is_empty() {
+                crate::common::machinery_failure(&format!("POST /sessions answered {st}"));
+            }
+            let mut statuses = Vec::new();
+            let ended = |n: usize| app.log_events().iter().filter(|e| e.stream_id() == sid && matches!(e.kind, rip_kernel::EventKind::SessionEnded { .. })).count() >= n;
+            let mut accepted = 0usize;
+            for k in 0..posts {
+                let (st, _) = app.request("POST", &format!("/sessions/{sid}/input"), Some(json!({"input": input})));
+                statuses.push(st);
+                if st == 202 {
+                    accepted += 1;
+                }
+                if wait_between && k + 1 < posts {
+                    let t0 = Instant::now();
+                    while !ended(accepted) && t0.elapsed() < Duration::from_secs(10) {
+                        std::thread::sleep(Duration::from_millis(10));
+                    }
+                }
+            }
+            let t0 = Instant::now();
+            while !ended(accepted) && t0.elapsed() < Duration::from_secs(10) {
+                std::thread::sleep(Duration::from_millis(10));
+            }
+            std::thread::sleep(Duration::from_millis(50));
+            report.eval(Some(&("session_inputs", label, input)));
+            report.count("session_input_histories", 1);
+            let seqs: Vec<u64> = app.log_events().iter().filter(|e| e.stream_id() == sid).map(|e| e.seq).collect();
+            let case = json!({"engine": "H-histories", "harness": "c01.session_inputs", "history": label, "input": input, "http_statuses": statuses});
+            if seqs != (0..seqs.len() as u64).collect::<Vec<_>>() {
+                report.violation(&format!("C01:stream_numbering:session_inputs:{label}"), case, &format!("{posts} x POST /sessions/{{id}}/input (answers {statuses:?}): the session stream in the log reads {seqs:?}"));
+            } else if let Err(e) = rip_log::EventLog::new(app.data.join("events.jsonl")).and_then(|l| l.replay_validated()) {
+                report.violation(&format!("C01:validated_replay:session_inputs:{label}"), case, &format!("validated replay fails: {e}"));
+            }
+        }
+    }
+}
+
 pub fn replay(report: &Report, case: &Value) {
     let pre = match case["pre_state"].as_str().unwrap_or("Warm") {
         "Restarted" => Pre::Restarted,
@@ -430,5 +477,8 @@ pub fn run(opts: Opts) -> i32 {
     });
     // sequential part: the counters through every branch of the provider tool loop
     crate::c16::numbering_sweep(&report);
+    // sequential part: every way of starting runs on ONE session through the HTTP API (input once,
+    // twice in a row, twice after the first run ended, on two sessions)
+    session_inputs(&report);
     report.finish()
 }
